@@ -22,8 +22,7 @@ func Keys[M ~map[K]V, K comparable, V any](m M, site string) []K {
 	if len(keys) < 2 {
 		return keys
 	}
-	var zero K
-	switch reflect.TypeOf(zero).Kind() {
+	switch reflect.TypeOf((*K)(nil)).Elem().Kind() { // not TypeOf(zero): nil for an interface-typed K
 	case reflect.Pointer, reflect.Uintptr, reflect.UnsafePointer, reflect.Chan, reflect.Interface:
 		return keys
 	}
